@@ -74,7 +74,8 @@ Definition model_obs (c : c05_case) : oobs :=
   let sz := init (k_n c) (k_dz c) (k_z c) in
   let r := populate (k_sp c) (bd_of (k_body c)) (k_a c) sz in
   {| oo_a0 := src_obs c; oo_z0 := ostate_of sz; oo_evs := map (oev_of (k_sp c) sz) (snd r);
-     oo_z1 := ostate_of (fst r); oo_a1 := src_obs c; oo_a_same := true |}.
+     oo_z1 := ostate_of (fst r); oo_a1 := src_obs c; oo_a_same := true;
+     oo_za0 := V_zattrs c; oo_za1 := V_zattrs c |}.
 
 Lemma V_to_obs_model c : V_to_obs (c05_model c) = Some (model_obs c).
 Proof.
@@ -327,6 +328,8 @@ Proof.
     - rewrite map_map in Hin. apply in_map_iff in Hin. destruct Hin as [e [Heq Hin]]. subst os.
       rewrite Forall_forall in Pevs. cbn [oev_of oe_st]. eapply Hall. exact (Pevs e Hin).
     - subst os. eapply Hall. exact Pend. }
+  apply andb_true_iff. split;
+    [|unfold c05_attrs_ok, model_obs; cbn [oo_za0 oo_za1]; rewrite V_eqb_refl; reflexivity].
   apply andb_true_iff. split; [apply andb_true_iff; split; [apply andb_true_iff; split|]|].
   - unfold c05_ref_ok, model_obs. cbn [oo_evs]. fold sz. fold r. apply forallb_forall.
     intros oe Hin. apply in_map_iff in Hin. destruct Hin as [e [Heq Hin]]. subst oe.
